@@ -100,6 +100,59 @@ def large_layer(ck, n_files):
                     ck.fail("a non-seekable source was asked to seek or tell (large file)", inp)
 
 
+def compressed_layer(ck, n_files, tmpdir):
+    """compressed files (laspy's glue on the backend double, whose sequential decompressor reads ahead on a source that cannot seek, as the
+    real one does, and whose parallel decompressor refuses such a source): the same header, VLRs, EVLRs and records through every access path"""
+    import laspy
+    import lazrs
+    from laspy import LazBackend
+    path = os.path.join(tmpdir, "c.laz")
+    for fi in range(n_files):
+        minor, fmt = fio.PAIRS[(7 * fi + 3) % len(fio.PAIRS)]
+        n = [4, 11, 0, 23][fi % 4]
+        evlrs = None
+        if minor >= 4:
+            evlrs = [None, fio.rand_vlrs(ck.rng, True, 2), [("verif_big", 10, "at least one read-ahead block", bytes((5 * i) % 241 for i in range(8192 + 17 * (fi % 3)))),
+                                                             ("verif", 7, "after the big one", b"abc")]][fi % 3]
+        if n == 0 and evlrs:
+            evlrs = None            # zero points + EVLRs + compressed + non-seekable is the open finding of C14
+        las = fio.make_las(ck.rng, minor, fmt, n, vlrs=fio.rand_vlrs(ck.rng, False, 1), evlrs=evlrs)
+        lazrs.CHUNK_SIZE = ck.rng.choice([3, 5, 50])
+        try:
+            buf = io.BytesIO()
+            las.write(buf, do_compress=True, laz_backend=LazBackend.Lazrs)
+            data = buf.getvalue()
+        except Exception as e:
+            ck.fail(f"writing the compressed file raised {type(e).__name__}: {e}", {"kind": "access_compressed", "minor": minor, "fmt": fmt, "n": n})
+            continue
+        finally:
+            lazrs.CHUNK_SIZE = 5
+        with open(path, "wb") as f:
+            f.write(data)
+        nev = len(las.evlrs) if (minor >= 4 and las.evlrs) else 0
+        base = {"kind": "access_compressed", "minor": minor, "fmt": fmt, "n": n, "evlrs": nev, "evlr_sizes": [len(v.record_data_bytes()) for v in (las.evlrs or [])] if minor >= 4 else []}
+        ck.count("compressed_files")
+        ref = None
+        for kind in ("bytesio", "path", "bytes", "buffered", "readonly_iface", "no_readinto", "logged"):
+            for read_evlrs in (True, False):
+                for chunked in (False, True):
+                    inp = dict(base, source=kind, read_evlrs=read_evlrs, chunked=chunked)
+                    ck.case(("c17z", fi, kind, read_evlrs, chunked), nontrivial=(n > 0 or nev > 0))
+                    try:
+                        res, log = read_via(kind, data, path, read_evlrs, chunked)
+                    except Exception as e:
+                        ck.fail(f"compressed file: reading through {kind} (read_evlrs={read_evlrs}, chunked={chunked}) raised {type(e).__name__}: {e}", inp)
+                        continue
+                    if ref is None:
+                        ref = res
+                    elif res != ref:
+                        k0 = next((i for i in range(min(len(res), len(ref))) if res[i] != ref[i]), -1)
+                        ck.fail(f"compressed file: reading through {kind} (read_evlrs={read_evlrs}, chunked={chunked}) differs from BytesIO (first difference at char {k0}: "
+                                f"...{res[max(0,k0-20):k0+30]} vs ...{ref[max(0,k0-20):k0+30]})", inp)
+                    if kind == "readonly_iface" and log is not None and any(c in ("seek", "tell") for c in log):
+                        ck.fail(f"compressed file: a non-seekable source was asked to {[c for c in log if c in ('seek', 'tell')][0]}", inp)
+
+
 def run(ck):
     logging.getLogger("laspy").setLevel(logging.CRITICAL)
     import laspy
@@ -229,6 +282,7 @@ def run(ck):
             if fi < 2:
                 ck.sample(base)
         large_layer(ck, 1 if q else 6)
+        compressed_layer(ck, 12 if q else 240, tmpdir)
     finally:
         shutil.rmtree(tmpdir, ignore_errors=True)
     out = ck.driver(lines)
